@@ -4,7 +4,7 @@ C17 In-memory indices mirror the cluster; handling waits for the initial index.
 (a) the closed loop for one resource kind with an index whose function is scripted by the object's own
     content, a label filter on the index, and a raw-event probe that reads the index through the read-only
     kwarg view on every event. Every history to depth d over {set object's index code to one of
-    dict-k1 / dict-k2 (re-key) / two keys / scalar / None / temporary error / permanent error / arbitrary
+    dict-k1 / dict-k2 (re-key) / two keys / scalar / empty dict / None / temporary error / permanent error / arbitrary
     (ignored) error; label off; label on; delete; wait} over 2-3 objects whose keys collide.
     Oracle: after every processed event the index (keys, values per key, len, membership, iteration)
     equals a dictionary reference model of docs/indexing.rst.
@@ -27,7 +27,7 @@ from kv.runner import CheckResult, run_groups
 from kv.world import CRDS, EVENTS, KEX, KEX2, NAMESPACES
 
 TEMP_DELAY = 2.0
-CODES = ['k1', 'k2', 'two', 'scalar', 'none', 'temp', 'perm', 'arb']
+CODES = ['k1', 'k2', 'two', 'scalar', 'empty', 'none', 'temp', 'perm', 'arb']
 
 
 def snapshot(index: Any) -> dict[str, Any]:
@@ -56,6 +56,8 @@ class IndexScenario(ChangeScenario):
                 return {'k1': name, 'k2': name + '!'}
             if code == 'scalar':
                 return name
+            if code == 'empty':
+                return {}        # a result like any other: the object now contributes nothing
             if code == 'none':
                 return None
             if code == 'temp':
@@ -134,6 +136,8 @@ class IndexScenario(ChangeScenario):
                         model[name] = {'k1': name, 'k2': name + '!'}
                     elif code == 'scalar':
                         model[name] = {None: name}
+                    elif code == 'empty':
+                        model[name] = {}
                     elif code in ('none', 'arb'):
                         pass
                     elif code == 'temp':
